@@ -192,7 +192,24 @@ pub fn conformance(ctx: &CheckCtx, fams: &[&str], assumptions: &[&str]) -> Check
         complete: false,
         ..Mode::default()
     };
-    let items: Vec<(&str, &str, Mode)> = fams.iter().map(|f| (*f, set, mode.clone())).collect();
+    let mut items: Vec<(&str, &str, Mode)> = fams.iter().map(|f| (*f, set, mode.clone())).collect();
+    // larger programs (the thorough set), all schedules with at most b preemptions: conformance only
+    let b = if ctx.tier.is_thorough() { 3 } else { 2 };
+    for f in fams {
+        let n = family(f).len("thorough");
+        let want = if ctx.tier.is_thorough() { 4000 } else { 400 };
+        items.push((
+            *f,
+            "thorough",
+            Mode {
+                complete: false,
+                preemption_bound: Some(b),
+                stride: (n / want).max(1),
+                max_execs: 100_000,
+                ..Mode::default()
+            },
+        ));
+    }
     run_e2(
         ctx,
         &mut res,
@@ -200,7 +217,8 @@ pub fn conformance(ctx: &CheckCtx, fams: &[&str], assumptions: &[&str]) -> Check
         &[VKind::Sound, VKind::Enabled, VKind::Ending, VKind::Abort],
         if ctx.tier.is_thorough() { 1500.0 } else { 50.0 },
     );
-    res.cov("rule", e2_rule());
+    res.cov("preemption_bound_completed_on_bounded_pass", b);
+    res.cov("rule", format!("{}; second pass: every k-th program of the larger `thorough` program set explored with ALL schedules of at most b preemptions (b = 2 quick, 3 thorough) — trace conformance only, counted as not full-tree", e2_rule()));
     res.assumptions.push("small-scope: programs up to the stated size only".into());
     for a in assumptions {
         res.assumptions.push(a.to_string());
